@@ -253,7 +253,13 @@ def make_funsor(fn):
 
     def _alpha_convert(self, alpha_subs):
         alpha_subs = {k: to_funsor(v, self.bound[k]) for k, v in alpha_subs.items()}
-        return Funsor._alpha_convert(self, alpha_subs)
+        new_args = Funsor._alpha_convert(self, alpha_subs)
+        # Fresh variables are outputs of this term, not bound by it: a fresh
+        # variable that reuses the name of a bound one must keep its name.
+        return tuple(
+            old if isinstance(hint, Fresh) else new
+            for hint, old, new in zip(hints, self._ast_values, new_args)
+        )
 
     name = _get_name(fn)
     ResultMeta.__name__ = f"{name}Meta"
